@@ -53,14 +53,26 @@ Proof.
   apply andb_true_iff in E1. apply andb_true_iff in E2. right. apply andb_true_iff. tauto.
 Qed.
 
-(* ---- the token instance *)
-Lemma tok_eqb_refl : forall a, tok_eqb a a = true.
-Proof. intros. unfold tok_eqb. apply Z.eqb_refl. Qed.
+(* ---- the token instance: == on tokens is symmetric and transitive, reflexive except on NaN tokens, and the
+   token hashes respect it *)
+Lemma tok_eqb_refl : forall a, tok_isnan a = false -> tok_eqb a a = true.
+Proof. intros a H. unfold tok_eqb. rewrite H, Z.eqb_refl. reflexivity. Qed.
+Lemma tok_eqb_nan : forall a, tok_isnan a = true -> tok_eqb a a = false.
+Proof. intros a H. unfold tok_eqb. rewrite H. reflexivity. Qed.
 Lemma tok_eqb_sym : forall a b, tok_eqb a b = tok_eqb b a.
-Proof. intros. unfold tok_eqb. apply Z.eqb_sym. Qed.
+Proof. intros. unfold tok_eqb. rewrite (Z.eqb_sym (tok_canon a)). destruct (tok_isnan a), (tok_isnan b); reflexivity. Qed.
 Lemma tok_eqb_trans : forall a b c, tok_eqb a b = true -> tok_eqb b c = true -> tok_eqb a c = true.
-Proof. unfold tok_eqb. intros a b c H1 H2. apply Z.eqb_eq in H1, H2. apply Z.eqb_eq. congruence. Qed.
+Proof.
+  unfold tok_eqb. intros a b c H1 H2.
+  apply andb_true_iff in H1. destruct H1 as [N1 E1]. apply andb_true_iff in N1. destruct N1 as [Na Nb].
+  apply andb_true_iff in H2. destruct H2 as [N2 E2]. apply andb_true_iff in N2. destruct N2 as [_ Nc].
+  rewrite Na, Nc. cbn [andb]. apply Z.eqb_eq in E1, E2. apply Z.eqb_eq. congruence.
+Qed.
 Lemma tok_hash_coherent : forall a b, tok_eqb a b = true -> tok_hash a = tok_hash b.
-Proof. unfold tok_eqb, tok_hash. intros a b H. apply Z.eqb_eq in H. rewrite H. reflexivity. Qed.
+Proof.
+  unfold tok_eqb, tok_hash. intros a b H. apply andb_true_iff in H. destruct H as [_ H]. apply Z.eqb_eq in H. rewrite H. reflexivity.
+Qed.
 Lemma tok_hash_weak_coherent : forall a b, tok_eqb a b = true -> tok_hash_weak a = tok_hash_weak b.
-Proof. unfold tok_eqb, tok_hash_weak. intros a b H. apply Z.eqb_eq in H. rewrite H. reflexivity. Qed.
+Proof.
+  unfold tok_eqb, tok_hash_weak. intros a b H. apply andb_true_iff in H. destruct H as [_ H]. apply Z.eqb_eq in H. rewrite H. reflexivity.
+Qed.
